@@ -188,3 +188,71 @@ Proof.
   cbn [compare_step numv_of arith nv_to_double]. unfold cmp_f64, f_eq, f_lt, f_gt.
   destruct (SFcompare (f_of_Z F64 z) d) as [[| |]|]; cbn [cmp_rev is_equal]; repeat split.
 Qed.
+
+(* a == b on two objects: the member counts agree and every member of a has, under its key in b (first
+   match), an equal value.  b enters only through look-ups by key: the order of its members is irrelevant.
+   No hypothesis on keys — with repeated keys this is exactly the asymmetric relation of the known finding. *)
+Definition members_match (la lb : list (bytes * jv)) : bool :=
+  forallb (fun kv => match assoc_get (fst kv) lb with
+                     | Some w => op_eq (snd kv) w
+                     | None => false
+                     end) la && Nat.eqb (length la) (length lb).
+
+Theorem objects_memberwise : forall la lb,
+  op_eq (JObj la) (JObj lb) = members_match la lb.
+Proof.
+  intros la lb. unfold op_eq at 1. unfold compare.
+  pose proof (jsize_pos (JObj lb)) as Hp.
+  destruct (jsize (JObj lb) + jsize (JObj la))%nat as [|n] eqn:E; [lia|].
+  rewrite compare_fuel_S. cbn [compare_step].
+  rewrite (obj_eq_with_ext (compare_fuel n) compare la lb).
+  - unfold obj_eq_with, members_match, op_eq.
+    destruct (forallb _ la && Nat.eqb (length la) (length lb)); reflexivity.
+  - intros k v k' w Hv Hw. apply jsize_obj_in in Hv. apply jsize_obj_in in Hw.
+    apply compare_enough_fuel. lia.
+Qed.
+
+Example objects_order_irrelevant :
+  op_eq (JObj [([97%N], JInt 1); ([98%N], JArr [JNull])]) (JObj [([98%N], JArr [JNull]); ([97%N], JInt 1)]) = true /\
+  op_eq (JObj [([97%N], JInt 1)]) (JObj [([97%N], JInt 1); ([98%N], JNull)]) = false.
+Proof. vm_compute. split; reflexivity. Qed.
+
+(* ... regardless of order: permuting the members of the right operand (keys not repeated) changes nothing *)
+From Coq Require Import Sorting.Permutation.
+
+Lemma assoc_get_perm : forall k (l l' : list (bytes * jv)),
+  NoDup (map fst l) -> Permutation l l' -> assoc_get k l = assoc_get k l'.
+Proof.
+  intros k l l' ND P.
+  assert (ND' : NoDup (map fst l')).
+  { eapply Permutation_NoDup; [|exact ND]. apply Permutation_map. exact P. }
+  destruct (assoc_get k l) as [w|] eqn:E.
+  - apply assoc_get_in in E. symmetry. apply assoc_get_nodup; [exact ND'|].
+    eapply Permutation_in; [exact P|exact E].
+  - destruct (assoc_get k l') as [w|] eqn:E'; [|reflexivity].
+    apply assoc_get_in in E'.
+    assert (In (k, w) l) as Hin by (eapply Permutation_in; [apply Permutation_sym; exact P|exact E']).
+    rewrite (assoc_get_nodup k w l ND Hin) in E. discriminate.
+Qed.
+
+Theorem objects_order_of_right_irrelevant : forall la lb lb',
+  NoDup (map fst lb) -> Permutation lb lb' ->
+  op_eq (JObj la) (JObj lb) = op_eq (JObj la) (JObj lb').
+Proof.
+  intros la lb lb' ND P. rewrite !objects_memberwise. unfold members_match.
+  rewrite (Permutation_length P). f_equal.
+  apply forallb_ext_In. intros kv _. rewrite (assoc_get_perm (fst kv) lb lb' ND P). reflexivity.
+Qed.
+
+Theorem objects_order_of_left_irrelevant : forall la la' lb,
+  Permutation la la' ->
+  op_eq (JObj la) (JObj lb) = op_eq (JObj la') (JObj lb).
+Proof.
+  intros la la' lb P. rewrite !objects_memberwise. unfold members_match.
+  rewrite (Permutation_length P). f_equal.
+  induction P as [|x l l' P IH|x y l|l l' l'' P1 IH1 P2 IH2]; cbn [forallb].
+  - reflexivity.
+  - rewrite IH. reflexivity.
+  - rewrite !andb_assoc. f_equal. apply andb_comm.
+  - rewrite IH1. exact IH2.
+Qed.
